@@ -45,7 +45,7 @@ def touched(patch):
     return set(re.findall(r'^\+\+\+ b/(\S+)', open(patch).read(), flags=re.M))
 
 
-def intake(src):
+def intake(src, wave='g'):
     os.makedirs(BENIGN, exist_ok=True)
     n = 0
     for d in sorted(os.listdir(src)):
@@ -56,7 +56,7 @@ def intake(src):
             patch = os.path.join(src, d, v, 'patch.diff')
             if not os.path.exists(patch) or os.path.getsize(patch) == 0:
                 continue
-            name = '%s-g%s' % (prop, v.lstrip('v'))
+            name = '%s-%s%s' % (prop, wave, v.lstrip('v'))
             out = os.path.join(BENIGN, name)
             os.makedirs(out, exist_ok=True)
             have = os.path.join(out, 'patch.diff')
@@ -149,6 +149,7 @@ def write_results():
 def main():
     ap = argparse.ArgumentParser()
     ap.add_argument('--intake')
+    ap.add_argument('--wave', default='g')
     ap.add_argument('--tier', default='quick')
     ap.add_argument('--only', nargs='*')
     ap.add_argument('--props', nargs='*', default=['anchored'])
@@ -156,7 +157,7 @@ def main():
     ap.add_argument('--report-only', action='store_true')
     a = ap.parse_args()
     if a.intake:
-        intake(a.intake)
+        intake(a.intake, a.wave)
         return
     if not a.report_only:
         names = [n for n in sorted(os.listdir(BENIGN)) if os.path.exists(os.path.join(BENIGN, n, 'meta.json'))]
